@@ -231,6 +231,54 @@ pub fn enlarge_one_leaf(t: &mut Tape, forest: &mut [Node], n: usize) -> bool {
     set(forest, &mut k, t, n)
 }
 
+/// Like `enlarge_one_leaf`, but the leaf is the first child of an unknown-size master all of whose ancestors have unknown size too (the
+/// writer then holds nothing back except that master's own header when the payload arrives).  Falls back to any leaf.
+pub fn enlarge_first_child_of_streamed_master(t: &mut Tape, forest: &mut [Node], n: usize) -> (bool, bool) {
+    fn collect(f: &[Node], under_unknown: bool, top: bool, path: &mut Vec<usize>, out: &mut Vec<Vec<usize>>) {
+        for (i, x) in f.iter().enumerate() {
+            path.push(i);
+            if let NodeKind::Master(ch) = &x.kind {
+                let streamed = x.enc.unknown && !x.enc.full && !x.enc.flat_in_full && (top || under_unknown);
+                if streamed {
+                    if let Some(first) = ch.first() {
+                        if matches!(first.kind, NodeKind::Leaf(Payload::B(_)) | NodeKind::Leaf(Payload::Raw(_))) && !first.enc.mark {
+                            let mut p = path.clone();
+                            p.push(0);
+                            out.push(p);
+                        }
+                    }
+                    collect(ch, true, false, path, out);
+                }
+            }
+            path.pop();
+        }
+    }
+    let mut out = Vec::new();
+    collect(forest, false, true, &mut Vec::new(), &mut out);
+    if out.is_empty() {
+        return (enlarge_one_leaf(t, forest, n), false);
+    }
+    let p = out[t.below(out.len())].clone();
+    let mut cur: &mut [Node] = forest;
+    for (k, &i) in p.iter().enumerate() {
+        if k + 1 == p.len() {
+            let fill = t.filler(n);
+            if let NodeKind::Leaf(pl) = &mut cur[i].kind {
+                *pl = match pl {
+                    Payload::B(_) => Payload::B(fill),
+                    _ => Payload::Raw(fill),
+                };
+            }
+            return (true, true);
+        }
+        cur = match &mut cur[i].kind {
+            NodeKind::Master(ch) => ch.as_mut_slice(),
+            _ => unreachable!(),
+        };
+    }
+    (false, false)
+}
+
 pub fn gen_u64(t: &mut Tape) -> u64 {
     match t.weighted(&[3, 5, 4]) {
         0 => t.below(300) as u64,
